@@ -39,8 +39,16 @@ Lemma exec0_get {A} muts b p n (k : resp V -> Store.prog V A) tr b' r tr' muts' 
 Proof. intros X. apply exec0_do in X; [|reflexivity]. exact X. Qed.
 
 (* ---- the bucket as Open sees it ---- *)
-Definition ver_cur (b : bucket V) (n : name) : option vobj :=
-  match o_get n (b_cur b) with Some (OVer v) => Some v | _ => None end.
+Fixpoint ver_in (b : bucket V) (ps : list pfx) (n : name) : option vobj :=
+  match ps with
+  | [] => None
+  | p :: ps' => match o_get n (sel p b) with
+                | Some (OVer v) => Some v
+                | Some (ONode _) => None
+                | None => ver_in b ps' n
+                end
+  end.
+Definition ver_cur (b : bucket V) (n : name) : option vobj := ver_in b [PCur] n.
 Definition node_at (b : bucket V) (l : name) : option ctree :=
   match o_get l (b_node b) with Some (ONode t) => Some t | _ => None end.
 Definition tree_of (b : bucket V) (v : vobj) : option ctree :=
@@ -58,9 +66,10 @@ Hypothesis g_closed : forall x y, S x -> S y -> S (g x y).
 
 Definition good_tree (t : ctree) : Prop := wf t /\ vals_in S t.
 
-Definition versions_ok (b : bucket V) (names : list name) (vs : list vobj) (ts : list ctree) : Prop :=
-  Forall2 (fun n v => ver_cur b n = Some v /\ good_ver b v) names vs /\
+Definition versions_ok_in (b : bucket V) (ps : list pfx) (names : list name) (vs : list vobj) (ts : list ctree) : Prop :=
+  Forall2 (fun n v => ver_in b ps n = Some v /\ good_ver b v) names vs /\
   Forall2 (fun v t => tree_of b v = Some t /\ good_tree t) vs ts.
+Definition versions_ok b := versions_ok_in b [PCur].
 
 Definition acc_ok (b : bucket V) (a : macc (V := V)) : Prop :=
   a_bf a = c_bf c /\ a_mode a = c_mode c /\ good_tree (a_tree a) /\
@@ -76,15 +85,16 @@ Proof.
   exists t. split; [exact Hm|]. split; [split; assumption|exact Hg].
 Qed.
 
-Lemma load_root_cur b key v muts tr b' (r : result (option vobj)) tr' muts' :
-  ver_cur b key = Some v ->
-  exec0 muts b (load_root_any [PCur] key) tr b' r tr' muts' ->
+Lemma load_root_in b ps key v : forall muts tr b' (r : result (option vobj)) tr' muts',
+  ver_in b ps key = Some v ->
+  exec0 muts b (load_root_any ps key) tr b' r tr' muts' ->
   b' = b /\ r = Done (Some v).
 Proof.
-  intros Hv X. cbn [load_root_any] in X. apply exec0_get in X. destruct X as (m1 & X).
-  unfold ver_cur in Hv. cbn [sel] in X.
-  destruct (o_get key (b_cur b)) as [[t|v0]|]; try discriminate.
-  injection Hv as ->. apply exec_ret_inv in X. destruct X as (-> & -> & _). split; reflexivity.
+  induction ps as [|p ps IH]; intros muts tr b' r tr' muts' Hv X; cbn [ver_in] in Hv; [discriminate|].
+  cbn [load_root_any] in X. apply exec0_get in X. destruct X as (m1 & X).
+  destruct (o_get key (sel p b)) as [[t|v0]|]; try discriminate.
+  - injection Hv as ->. apply exec_ret_inv in X. destruct X as (-> & -> & _). split; reflexivity.
+  - exact (IH _ _ _ _ _ _ Hv X).
 Qed.
 
 Lemma load_tree_good b v t muts tr b' (r : result (loaded (V := V))) tr' muts' :
@@ -109,9 +119,9 @@ Qed.
 
 (* mergeRoots over versions that are all present: the accumulated tree is the fold of the
    tree merge over the versions' trees, in the order visited; the bucket is not changed *)
-Theorem merge_loop_spec skip names : forall vs ts b a merged muts tr b' r tr' muts',
-  versions_ok b names vs ts -> acc_ok b a ->
-  exec0 muts b (merge_loop c [PCur] skip names (Some a) merged) tr b' r tr' muts' ->
+Theorem merge_loop_spec ps skip names : forall vs ts b a merged muts tr b' r tr' muts',
+  versions_ok_in b ps names vs ts -> acc_ok b a ->
+  exec0 muts b (merge_loop c ps skip names (Some a) merged) tr b' r tr' muts' ->
   b' = b /\
   exists a' merged' t', r = Done (Some a', merged') /\
     MergeAllProofs.merge_list (c_merge c) (c_veq c) (a_tree a) ts = Some t' /\
@@ -129,9 +139,9 @@ Proof.
     cbn [merge_loop] in X.
     apply exec_bind_inv in X.
     destruct X as [(ro & b1 & tr1 & m1 & X1 & X2)|[(e & -> & X1)|(-> & X1)]];
-      [| apply (load_root_cur _ _ _ _ _ _ _ _ _ Hv) in X1; destruct X1 as (_ & X1); discriminate
-       | apply (load_root_cur _ _ _ _ _ _ _ _ _ Hv) in X1; destruct X1 as (_ & X1); discriminate].
-    apply (load_root_cur _ _ _ _ _ _ _ _ _ Hv) in X1. destruct X1 as (-> & X1). injection X1 as ->.
+      [| apply (load_root_in _ _ _ _ _ _ _ _ _ _ Hv) in X1; destruct X1 as (_ & X1); discriminate
+       | apply (load_root_in _ _ _ _ _ _ _ _ _ _ Hv) in X1; destruct X1 as (_ & X1); discriminate].
+    apply (load_root_in _ _ _ _ _ _ _ _ _ _ Hv) in X1. destruct X1 as (-> & X1). injection X1 as ->.
     cbn beta iota in X2.
     destruct Hg as (Hmode & Hbf & tt0 & Htt0). rewrite Ht in Htt0. injection Htt0 as <-.
     apply exec_bind_inv in X2.
@@ -258,9 +268,9 @@ Definition view_fold (ts : list ctree) : option ctree :=
   match ts with [] => Some [] | t :: ts' => MergeAllProofs.merge_list (c_merge c) (c_veq c) t ts' end.
 
 (* mergeRoots from scratch *)
-Theorem merge_loop_none_spec skip names vs ts b muts tr b' r tr' muts' :
-  versions_ok b names vs ts ->
-  exec0 muts b (merge_loop c [PCur] skip names None []) tr b' r tr' muts' ->
+Theorem merge_loop_none_spec ps skip names vs ts b muts tr b' r tr' muts' :
+  versions_ok_in b ps names vs ts ->
+  exec0 muts b (merge_loop c ps skip names None []) tr b' r tr' muts' ->
   b' = b /\
   exists acc merged, r = Done (acc, merged) /\
     match acc with
@@ -275,9 +285,9 @@ Proof.
     cbn [merge_loop] in X.
     apply exec_bind_inv in X.
     destruct X as [(ro & b1 & tr1 & m1 & X1 & X2)|[(e & -> & X1)|(-> & X1)]];
-      [| apply (load_root_cur _ _ _ _ _ _ _ _ _ Hv) in X1; destruct X1 as (_ & X1); discriminate
-       | apply (load_root_cur _ _ _ _ _ _ _ _ _ Hv) in X1; destruct X1 as (_ & X1); discriminate].
-    apply (load_root_cur _ _ _ _ _ _ _ _ _ Hv) in X1. destruct X1 as (-> & X1). injection X1 as ->.
+      [| apply (load_root_in _ _ _ _ _ _ _ _ _ _ Hv) in X1; destruct X1 as (_ & X1); discriminate
+       | apply (load_root_in _ _ _ _ _ _ _ _ _ _ Hv) in X1; destruct X1 as (_ & X1); discriminate].
+    apply (load_root_in _ _ _ _ _ _ _ _ _ _ Hv) in X1. destruct X1 as (-> & X1). injection X1 as ->.
     cbn beta iota in X2.
     destruct Hg as (Hmode & Hbf & tt0 & Htt0).
     apply exec_bind_inv in X2.
@@ -320,9 +330,9 @@ Proof.
   { intros n Hn. apply in_o_names. exact (in_apply_order _ _ _ Hn). }
   apply exec_bind_inv in X2.
   destruct X2 as [(x & b2 & tr2 & m2 & X1 & X2)|[(e & -> & X1)|(-> & X1)]];
-    [| apply (merge_loop_none_spec _ _ _ _ _ _ _ _ _ _ _ Hok) in X1; destruct X1 as (_ & ? & ? & X1 & _); discriminate
-     | apply (merge_loop_none_spec _ _ _ _ _ _ _ _ _ _ _ Hok) in X1; destruct X1 as (_ & ? & ? & X1 & _); discriminate].
-  apply (merge_loop_none_spec _ _ _ _ _ _ _ _ _ _ _ Hok) in X1.
+    [| apply (merge_loop_none_spec _ _ _ _ _ _ _ _ _ _ _ _ Hok) in X1; destruct X1 as (_ & ? & ? & X1 & _); discriminate
+     | apply (merge_loop_none_spec _ _ _ _ _ _ _ _ _ _ _ _ Hok) in X1; destruct X1 as (_ & ? & ? & X1 & _); discriminate].
+  apply (merge_loop_none_spec _ _ _ _ _ _ _ _ _ _ _ _ Hok) in X1.
   destruct X1 as (-> & acc & merged & X1 & Hacc). injection X1 as ->.
   cbn beta iota in X2. apply exec_ret_inv in X2. destruct X2 as (-> & -> & _).
   split; [reflexivity|]. eexists. exists ts. split; [reflexivity|].
@@ -330,6 +340,34 @@ Proof.
   destruct acc as [a|].
   - destruct Hacc as (Hv & Hms & _). cbn [h_tree h_msources h_ro]. repeat split; assumption.
   - cbn [h_tree h_msources h_ro]. rewrite Hacc in *. inversion Hts; subst. repeat split; reflexivity.
+Qed.
+
+(* a read-only open restricted to given versions (OnlyVersions; s3db_changes, TraceHistory):
+   looks under merged/ then current/, fails on anything missing *)
+Theorem open_hist_spec vsn when order corder vs ts b muts tr b' r tr' muts' :
+  versions_ok_in b [PMerged; PCur] (apply_order_multi order vsn) vs ts ->
+  exec0 muts b (open c true (Some vsn) when order corder) tr b' r tr' muts' ->
+  b' = b /\ exists h, r = Done h /\ view_fold ts = Some (h_tree h) /\ h_ro h = true.
+Proof.
+  intros Hok X. unfold open in X. cbn [negb andb] in X.
+  apply exec_bind_inv in X.
+  destruct X as [(x & b1 & tr1 & m1 & X1 & X2)|[(e & -> & X1)|(-> & X1)]];
+    [| apply exec_ret_inv in X1; destruct X1 as (_ & X1 & _); discriminate
+     | apply exec_ret_inv in X1; destruct X1 as (_ & X1 & _); discriminate].
+  apply exec_ret_inv in X1. destruct X1 as (-> & X1 & ->). injection X1 as X1; subst x.
+  cbn beta iota in X2.
+  apply exec_bind_inv in X2.
+  destruct X2 as [(x & b2 & tr2 & m2 & X1 & X2)|[(e & -> & X1)|(-> & X1)]];
+    [| apply (merge_loop_none_spec _ _ _ _ _ _ _ _ _ _ _ _ Hok) in X1; destruct X1 as (_ & ? & ? & X1 & _); discriminate
+     | apply (merge_loop_none_spec _ _ _ _ _ _ _ _ _ _ _ _ Hok) in X1; destruct X1 as (_ & ? & ? & X1 & _); discriminate].
+  apply (merge_loop_none_spec _ _ _ _ _ _ _ _ _ _ _ _ Hok) in X1.
+  destruct X1 as (-> & acc & merged & X1 & Hacc). injection X1 as ->.
+  cbn beta iota in X2. apply exec_ret_inv in X2. destruct X2 as (-> & -> & _).
+  split; [reflexivity|]. eexists. split; [reflexivity|].
+  destruct acc as [a|].
+  - destruct Hacc as (Hv & Hms & _). cbn [h_tree h_ro]. split; [exact Hv|reflexivity].
+  - cbn [h_tree h_ro]. destruct Hok as (F1 & F2). rewrite Hacc in F1. inversion F1; subst. inversion F2; subst.
+    split; reflexivity.
 Qed.
 
 End Open.
